@@ -172,6 +172,9 @@ class BufferedReader:
                     yield self._buffer[:pos]
                 return
 
+        # NOTE: The source is exhausted, and no delimiter was found. Mark the
+        #   rest of the buffer as consumed before handing it over.
+        self._buffer_pos = self._buffer_len
         yield self._buffer
 
     async def _consume_delimiter(self, delimiter: bytes) -> None:
